@@ -65,6 +65,9 @@ class Rational(primitives.Expression):
     def __eq__(self, other):
         if not isinstance(other, Rational):
             other = Rational(other)
+        elif type(other) is not type(self):
+            # __hash__ includes the class
+            return False
 
         return self.Numerator == other.Numerator and \
                self.Denominator == other.Denominator
